@@ -175,6 +175,8 @@ BREAKING += [
     {"id": "C01-extracted-helper-wrong-order", "props": ["C01"], "edits": [E(INFRA, "        self.write(obs, offset=0, inplace=inplace)\n        self.incr(1)", "        self._write_and_advance(obs, inplace)\n\n    def _write_and_advance(self, obs, inplace):\n        self.incr(1)\n        self.write(obs, offset=0, inplace=inplace)")]},
     {"id": "C13-extracted-size-helper-floor", "props": ["C13"], "edits": [E(INFRA, "        size = max(math.ceil(self.__duration / self.__dt) + self.__inclusive, 1)", "        size = _record_size(self.__duration, self.__dt, self.__inclusive)", 2),
                                                   E(INFRA, "def _unwind_ptr(", "def _record_size(duration, dt, inclusive):\n    return max(math.floor(duration / dt) + inclusive, 1)\n\n\ndef _unwind_ptr(")]},
+    {"id": "C15-release-test-is-not", "props": ["C15"], "edits": [E("observe/pooling.py", "m is target for group in self.monitors_.values()", "m is not target for group in self.monitors_.values()")]},
+    {"id": "C15-release-test-polarity", "props": ["C15"], "edits": [E("observe/pooling.py", "if id(monitor) not in shared:", "if id(monitor) in shared:")]},
 ]
 
 BENIGN = [
